@@ -81,7 +81,7 @@ def define():
             for via in ("None", "TypedSpare", "ByteSpare"):
                 if ELEMS[elem][0] == 0 and via != "None":
                     continue
-                for off in ((0, 1, 2, 3) if b in ("stack", "stackn") else (0,)):
+                for off in (((0, 1, 2, 3) if ELEMS[elem][1] > 8 else (0, 1)) if b in ("stack", "stackn") else (0,)):
                     views(via, "none", b, elem, capv=2, tier="thorough", off=off)
             # typed use of over-aligned elements on inline storage is the recorded known finding (views_h reports it
             # cheaply); a typed write through the misaligned pointer makes CBMC explode (54 GB), so it is not instantiated
